@@ -10,7 +10,7 @@ import CalVerif.Model.OdsCell
     `collect <runs>`                          → `<cells> <cols> <rowsRepeats>` as `read_table` accumulates them
     `case <runs>`                             → `<model range dump>|<spec dump>` (spec = bbox + values of `expand`)
     `casevf <vfruns>`                         → `<model values>|<spec values>|<model formulas>|<spec formulas>`
-                                                 (cell events `v,f*k` carry a value id and a formula id)
+                                                 (cell events `[c]v,f*k`: value id, formula id, repeat; `c` = covered cell)
     `cell <attr>;<attr>;…`                    → `<val> f=<formula hex> text=<0|1>` | `err` (model of get_datatype's
                                                  attribute loop; attr = `v<f64 bits>` | `v!` (unparsable) | `s|d|t|b|y|f<hex>` | `o`;
                                                  val = `E` | `F<bits>` | `S|D|T<hex>` | `B0|B1`)
@@ -53,15 +53,17 @@ def parseRow (s : String) : Option (RowRun Nat) :=
     some (rep, evs)
   | _ => none
 
-def parseEvVF (s : String) : Option ((Nat × Nat) × Nat) :=
-  match s.splitOn "*" with
+/-- `[c]v,f*k`: a leading `c` marks a `table:covered-table-cell` -/
+def parseEvVF (s : String) : Option (CellKind × (Nat × Nat) × Nat) :=
+  let (kind, body) := if s.startsWith "c" then (CellKind.covered, (s.drop 1).toString) else (CellKind.cell, s)
+  match body.splitOn "*" with
   | [vf, k] =>
     match vf.splitOn "," with
-    | [v, f] => do some (((← v.toNat?), (← f.toNat?)), (← k.toNat?))
+    | [v, f] => do some (kind, ((← v.toNat?), (← f.toNat?)), (← k.toNat?))
     | _ => none
   | _ => none
 
-def parseRowVF (s : String) : Option (RowRunVF Nat Nat) :=
+def parseRowVF (s : String) : Option (RowRunK (Nat × Nat)) :=
   match s.splitOn ":" with
   | [rep, evs] => do
     let rep ← rep.toNat?
@@ -69,7 +71,7 @@ def parseRowVF (s : String) : Option (RowRunVF Nat Nat) :=
     some (rep, evs)
   | _ => none
 
-def parseRunsVF (s : String) : Option (List (RowRunVF Nat Nat)) :=
+def parseRunsVF (s : String) : Option (List (RowRunK (Nat × Nat))) :=
   if s = "-" then some [] else (s.splitOn "/").mapM parseRowVF
 
 def parseRuns (s : String) : Option (List (RowRun Nat)) :=
@@ -147,9 +149,9 @@ def handle (line : String) : String :=
   | ["casevf", rs] =>
     match parseRunsVF rs with
     | some runs =>
-      let sv := specDump (runsOf (fun e : Nat × Nat => e.1) runs)
-      let sf := specDump (runsOf (fun e : Nat × Nat => e.2) runs)
-      s!"{dumpRes (getRange (collectV runs))}|{sv}|{dumpRes (getRange (collectF runs))}|{sf}"
+      let sv := specDump (runsOf (fun e : Nat × Nat => e.1) (eraseKinds runs))
+      let sf := specDump (runsOf (fun e : Nat × Nat => e.2) (eraseKinds runs))
+      s!"{dumpRes (getRange (collectKV runs))}|{sv}|{dumpRes (getRange (collectKF runs))}|{sf}"
     | none => "bad-op"
   | _ => "bad-op"
 
